@@ -154,3 +154,78 @@ def real_pipeline(sb, text, settings, title='T', mod='M', fname='case.cmake'):
         except BaseException as e:
             if isinstance(e, (KeyboardInterrupt, SystemExit, MemoryError)): raise
             return classify_exception(e, text)
+
+
+# ---- lexer / parser level adapters ---------------------------------------------------------------------------------
+from antlr4 import InputStream, CommonTokenStream, Token
+from antlr4.error.ErrorListener import ErrorListener
+from antlr4.error.Errors import LexerNoViableAltException
+from cminx.parser.CMakeLexer import CMakeLexer
+from cminx.parser.CMakeParser import CMakeParser
+
+TOKEN_NAMES = {1: 'LP', 2: 'RP'}
+
+
+def _tok_name(ttype):
+    return TOKEN_NAMES.get(ttype) or CMakeLexer.symbolicNames[ttype - 2]
+
+
+class _StopLex(Exception):
+    pass
+
+
+def real_lex(text):
+    """token stream of the generated ANTLR lexer INCLUDING skipped tokens: a per-token re-run of Lexer.nextToken's
+    matching step (the generated rules and the ATN simulator are the real ones).  Returns {'toks': [...]} or
+    {'err':'lex','pos':index}."""
+    lx = CMakeLexer(InputStream(text)); lx.removeErrorListeners()
+    toks = []
+    while True:
+        if lx._input.LA(1) == Token.EOF: break
+        lx._token = None; lx._channel = Token.DEFAULT_CHANNEL
+        lx._tokenStartCharIndex = lx._input.index
+        lx._tokenStartColumn = lx._interp.column; lx._tokenStartLine = lx._interp.line; lx._text = None
+        lx._type = Token.INVALID_TYPE
+        try:
+            ttype = lx._interp.match(lx._input, lx._mode)
+        except LexerNoViableAltException as e:
+            return dict(err='lex', pos=e.startIndex)
+        start = lx._tokenStartCharIndex; stop = lx._input.index
+        toks.append([_tok_name(ttype), lx._input.getText(start, stop - 1)])
+    return dict(toks=toks)
+
+
+def _arg_json(ctx):
+    if isinstance(ctx, CMakeParser.Compound_argumentContext):
+        return [_arg_json(c) for c in ctx.getChildren(lambda c: isinstance(c, (CMakeParser.Single_argumentContext, CMakeParser.Compound_argumentContext)))]
+    return ctx.getText()
+
+
+def _cmd_json(ctx):
+    return dict(name=ctx.Identifier().getText(),
+                args=[_arg_json(c) for c in ctx.getChildren(lambda c: isinstance(c, (CMakeParser.Single_argumentContext, CMakeParser.Compound_argumentContext)))])
+
+
+def real_parse(sb, text):
+    """the listener events of the real parse tree, in document order (same shape as the driver's `parse` op)"""
+    path = sb.write('parse_case.cmake', text)
+    with capture_logs(), contextlib.redirect_stderr(io.StringIO()):
+        try:
+            d = Documenter(path, 'T', 'M', make_settings())
+            tree = d.parser.cmake_file()
+            if d.parser.getNumberOfSyntaxErrors() > 0: return dict(err='parse')
+        except BaseException as e:
+            if isinstance(e, (KeyboardInterrupt, SystemExit, MemoryError, RecursionError)): raise
+            return classify_exception(e, text)
+    evs = []
+    for ch in tree.getChildren():
+        if isinstance(ch, CMakeParser.Documented_moduleContext):
+            evs.append(dict(e='module', text=ch.Module_docstring().getText()))
+        elif isinstance(ch, CMakeParser.Documented_commandContext):
+            c = _cmd_json(ch.command_invocation())
+            evs.append(dict(e='doccmd', doc=ch.bracket_doccomment().getText(), name=c['name'], args=c['args']))
+        elif isinstance(ch, CMakeParser.Command_invocationContext):
+            c = _cmd_json(ch); evs.append(dict(e='cmd', name=c['name'], args=c['args']))
+        elif isinstance(ch, CMakeParser.Bracket_doccommentContext):
+            evs.append(dict(e='dangling'))
+    return dict(events=evs)
